@@ -244,19 +244,21 @@ class World:
             import traceback
             import time as _t
             frames = []
-            for _ in range(2):
+            for _ in range(5):
                 fr = sys._current_frames().get(a.thread.ident)
                 frames.append(traceback.extract_stack(fr) if fr is not None else [])
-                _t.sleep(1.0)
+                _t.sleep(0.4)
             repo = os.path.realpath(os.environ.get("VERIF_REPO", "/repo"))
 
-            def innermost_repo(st):
-                for f in reversed(st):
-                    if os.path.realpath(f.filename).startswith(repo + os.sep):
-                        return f"{os.path.basename(f.filename)}:{f.name}"
-                return None
-            w0, w1 = innermost_repo(frames[0]), innermost_repo(frames[1])
-            where = w0 if (w0 is not None and w0 == w1) else None
+            def repo_frames(st):
+                return [f"{os.path.basename(f.filename)}:{f.name}" for f in st if os.path.realpath(f.filename).startswith(repo + os.sep)]
+            # a busy loop in the code under test: on every sample the thread is below the same function(s) of that code
+            # (the innermost one may differ from sample to sample when the loop body calls several helpers)
+            common = None
+            for st in frames:
+                names = repo_frames(st)
+                common = names if common is None else [n for n in common if n in names]
+            where = common[-1] if common else None
             tail = " <- ".join(f"{os.path.basename(f.filename)}:{f.name}:{f.lineno}" for f in reversed(frames[1][-6:]))
             raise ActorStuck(f"actor {a.name} did not yield within {WALL_STEP_LIMIT}s wall ({a.desc}); stack: {tail}", a.name, where, tail)
 
